@@ -14,7 +14,7 @@ def NOT_REPRODUCED(msg=''):
 
 
 from svgpathtools.polytools import polyroots01, polyroots
-roots = [(1.0000033366666667+0j), (1.0000016683333333+0j), (0.9999949950500495+0j)]
+roots = [0.001j, (1.0000025025+0j), (0.9999949950500495+0j)]
 # complex roots must come in conjugate pairs for a real polynomial: add the conjugates
 full = []
 for z in roots:
